@@ -6,6 +6,7 @@ CONSTANTS
   Kinds = {"keep"}
   SigTwice = FALSE
   Dev = {}
+  Faults = {}
 SPECIFICATION Spec
 INVARIANTS Never_ReturnedDeepQueue
 CHECK_DEADLOCK FALSE
